@@ -710,7 +710,8 @@ Edits(t) ==
     [] OTHER -> {}
 
 ObsPair(r) ==
-  <<ObsOn("source", r), ObsOn("buffer", r), MapOn(r, TRUE), MapOn(r, FALSE), HashOn(r)>>
+  <<ObsOn("source", r), ObsOn("buffer", r), MapOn(r, TRUE), MapOn(r, FALSE), HashOn(r),
+    [op |-> "hash", r |-> r, h |-> "feed"]>>
 EqStep(a, b) == [op |-> "eq", a |-> a, b |-> b]
 
 EditPairProg(t, e) ==
